@@ -127,6 +127,40 @@ def validate_traces(trace_module, cfg, scenarios, workdir, name, timeout=900, ex
     independently (one TLC initial state per scenario).  Returns dict
     {accepted: set(ids), progress: {id: (matched, total)}, states, transitions, wall}."""
     os.makedirs(workdir, exist_ok=True)
+    # very long recordings are validated in slices (the scenarios are independent of one another): a slice holds at most
+    # MAX_EVENTS events, slices run four at a time
+    MAX_EVENTS = 120000
+    total_events = sum(len(evs) for _, evs in scenarios)
+    if total_events > MAX_EVENTS and len(scenarios) > 1:
+        slices, cur, n_cur = [], [], 0
+        for sid, evs in scenarios:
+            if cur and n_cur + len(evs) > MAX_EVENTS:
+                slices.append(cur)
+                cur, n_cur = [], 0
+            cur.append((sid, evs))
+            n_cur += len(evs)
+        if cur:
+            slices.append(cur)
+        import concurrent.futures
+        merged = {"accepted": set(), "progress": {}, "states": 0, "transitions": 0, "wall": 0.0, "ids": [], "raw": {"prints": []}}
+
+        def one(k):
+            return validate_traces(trace_module, cfg, slices[k], workdir, "%s_s%d" % (name, k), timeout=timeout, extra_env=extra_env)
+        with concurrent.futures.ThreadPoolExecutor(max_workers=4) as ex:
+            for r in ex.map(one, range(len(slices))):
+                merged["accepted"] |= r["accepted"]
+                merged["progress"].update(r["progress"])
+                merged["states"] += r["states"]
+                merged["transitions"] += r["transitions"]
+                merged["wall"] += r["wall"]
+                merged["ids"] += r["ids"]
+                merged["raw"]["prints"] += r.get("raw", {}).get("prints", [])
+        for k in range(len(slices)):
+            try:
+                os.remove(os.path.join(workdir, "%s_s%d.ndjson" % (name, k)))
+            except OSError:
+                pass
+        return merged
     path = os.path.join(workdir, name + ".ndjson")
     starts, ends, ids = [], [], []
     n = 1  # line 1 is the header
